@@ -136,6 +136,7 @@ pub struct C12 {
     sub_ref: Lazy<BTreeMap<usize, (u64, Vec<String>)>>,
     rink_bin: Option<String>,
     ext_ref: Lazy<Result<String, String>>,
+    ext_ref2: Lazy<Result<String, String>>,
     text_ref: Lazy<(String, Vec<String>)>,
 }
 
@@ -186,7 +187,7 @@ impl C12 {
         fams.add("bundled database: reversal, sorted asc/desc, dependency-reversed", vec![4]);
         fams.add("bundled database: rotations", vec![(b.len() / rot_step) as u64]);
         let rink_bin = std::env::var("RINK_BIN").ok().filter(|p| std::path::Path::new(p).exists());
-        fams.add("split across files through the real binary", vec![if rink_bin.is_none() { 0 } else if thorough { 64 } else { 16 }, 2]);
+        fams.add("split across files through the real binary", vec![if rink_bin.is_none() { 0 } else if thorough { 64 } else { 16 }, 2, 4]);
         fams.add("text-level: every order of 7 snippets x every split into up to 3 files", vec![5040, cuts().len() as u64]);
         C12 {
             fams,
@@ -198,6 +199,7 @@ impl C12 {
             sub_ref: Lazy::new(),
             rink_bin,
             ext_ref: Lazy::new(),
+            ext_ref2: Lazy::new(),
             text_ref: Lazy::new(),
         }
     }
@@ -249,7 +251,7 @@ impl Space for C12 {
         Meta {
             id: "C12",
             level: "exploration",
-            rule: "(a) all 5040 permutations of every dependency-closed 7-subset (quick: every 4th) of a 22-definition pool (4-long alias chain, diamond, dependency reachable only through a prefix split / only through a plural, long+short prefixes defined through each other, quantities, a substance, category, docs); (b) the bundled database reversed, sorted by name ascending/descending, in dependency-reversed order, and under every rotation (quick: every 24th); (c) a 6-definition extension set distributed over ./definitions.units and $XDG_CONFIG_HOME/rink/definitions.units in all 2^6 assignments x both internal orders through the real `rink --dump`; (d) text level: all 5040 orders of 7 snippets (documented and undocumented base unit, quantities, units, prefix, substance) x all 36 splits into up to 3 files, each file parsed as a file (parser state such as a pending `??` comment carries between lines), against the snippets parsed one by one. Oracle: byte-identical Debug dump of the whole Registry and identical error multiset versus the reference order. Non-trivial = all; distinct by the order used".into(),
+            rule: "(a) all 5040 permutations of every dependency-closed 7-subset (quick: every 4th) of a 22-definition pool (4-long alias chain, diamond, dependency reachable only through a prefix split / only through a plural, long+short prefixes defined through each other, quantities, a substance, category, docs); (b) the bundled database reversed, sorted by name ascending/descending, in dependency-reversed order, and under every rotation (quick: every 24th); (c) a 6-definition extension set distributed over ./definitions.units and $XDG_CONFIG_HOME/rink/definitions.units in all 2^6 assignments x both internal orders x 4 file endings (as written, no final newline, either file ending inside a `!category` block) through the real `rink --dump`; (d) text level: all 5040 orders of 7 snippets (documented and undocumented base unit, quantities, units, prefix, substance) x all 36 splits into up to 3 files, each file parsed as a file (parser state such as a pending `??` comment carries between lines), against the snippets parsed one by one. Oracle: byte-identical Debug dump of the whole Registry and identical error multiset versus the reference order. Non-trivial = all; distinct by the order used".into(),
             assumptions: vec![
                 "premise of the statement: uniquely named definitions - entries sharing (namespace, name) in the shipped file are reduced to their last occurrence before permuting (listed in the evidence)".into(),
                 "Debug of Registry shows every field".into(),
@@ -282,7 +284,12 @@ impl Space for C12 {
                     p[j..].iter().map(name).collect::<Vec<_>>().join(", ")
                 )
             }
-            _ => format!("extension set split by mask {:06b}, order {}", self.mask(d[0]), if d[1] == 0 { "forward" } else { "reversed" }),
+            _ => format!(
+                "extension set split by mask {:06b}, order {}, {}",
+                self.mask(d[0]),
+                if d[1] == 0 { "forward" } else { "reversed" },
+                ["files as written", "no newline at the end of either file", "first file ends inside a category block", "second file ends inside a category block"][d[2] as usize]
+            ),
         }
     }
     fn sample_indices(&self) -> Vec<u64> {
@@ -406,9 +413,27 @@ impl Space for C12 {
                         b.push_str(EXT[*i]);
                     }
                 }
-                let single: String = EXT.concat();
+                // file endings: 0 as written; 1 no newline after the last line of either file; 2 / 3 the
+                // first / second file ends inside a `!category` block (the block ends with its file)
+                const CAT_OPEN: &str = "!category gizmos \"Gizmos\"\next_g 3 meter\n";
+                let style = d[2];
+                match style {
+                    1 => {
+                        a = a.trim_end_matches('\n').to_string();
+                        b = b.trim_end_matches('\n').to_string();
+                    }
+                    2 => a.push_str(CAT_OPEN),
+                    3 => b.push_str(CAT_OPEN),
+                    _ => {}
+                }
                 let mut out = CaseOut::ok("split across files").key(key);
-                let reference = self.ext_ref.get(|| run_dump(&bin, &dir.join("ref"), &single, "")).clone();
+                let reference = if style >= 2 {
+                    let single = format!("{}{}!endcategory\n", EXT.concat(), CAT_OPEN);
+                    self.ext_ref2.get(|| run_dump(&bin, &dir.join("ref2"), &single, "")).clone()
+                } else {
+                    let single: String = EXT.concat();
+                    self.ext_ref.get(|| run_dump(&bin, &dir.join("ref"), &single, "")).clone()
+                };
                 let got = run_dump(&bin, &dir.join("got"), &a, &b);
                 let _ = std::fs::remove_dir_all(&dir);
                 match (reference, got) {
